@@ -47,7 +47,11 @@ type expTransfer struct {
 	noData   bool
 }
 
-func id(addr []byte, key string) string { return string(addr) + "\x00" + key }
+// id keys an expectation by (address, storage key); the address is length-prefixed so that an
+// address which is a prefix of another cannot be confused with it.
+func id(addr []byte, key string) string { return addrPrefix(string(addr)) + key }
+
+func addrPrefix(addr string) string { return string(rune(len(addr))) + addr }
 
 func (m *model) preRaw(addr []byte, key string) []byte {
 	a, ok := m.c.Pre[string(addr)]
@@ -336,8 +340,8 @@ func (m *model) compareState() {
 			keys[k] = true
 		}
 		for k := range m.tok {
-			if strings.HasPrefix(k, a+"\x00") {
-				keys[k[len(a)+1:]] = true
+			if pre := addrPrefix(a); strings.HasPrefix(k, pre) {
+				keys[k[len(pre):]] = true
 			}
 		}
 		kl := make([]string, 0, len(keys))
